@@ -202,7 +202,10 @@ func (nd *node) setMode(mode fs.FileMode) {
 
 // setModTime sets the modification time of the node.
 func (nd *node) setModTime(mtime time.Time) {
-	nd.mtime = mtime.UnixNano()
+	// A zero time.Time value leaves the modification time unchanged.
+	if !mtime.IsZero() {
+		nd.mtime = mtime.UnixNano()
+	}
 }
 
 // setOwner sets the user and group id.
